@@ -810,6 +810,10 @@ def run(fx, crates=None, cfgname="A"):
         # caller's call result); closures and externally visible functions are analysed on their own
         if not f.is_closure and not (f.raw.get("exported") or f.raw.get("reachable")) and cg_callers(fx, f.path):
             continue
+        if f.is_closure and f.path in _expanded_closures(fx):
+            # handed to a combinator that is expanded: the closure runs inline in its parent's view, where its
+            # parameter *is* the caller's fallible value (judged at the call that produced it)
+            continue
         _current.update(prim=None, term=None, fn=f)
         f = _view(fx, f)
         for l in range(1, f.argc + 1):
@@ -855,6 +859,25 @@ def run(fx, crates=None, cfgname="A"):
     obs.extend(_nested_layers(fx, crates, cfgname))
     obs.extend(_collections_of_results(fx, crates, cfgname))
     return obs
+
+
+def _expanded_closures(fx, _memo={}):
+    k = id(fx)
+    if k not in _memo or _memo[k][0] is not fx:
+        import expand
+        out = set()
+        for p, g in fx.fns.items():
+            if g.crate not in ("libxcp", "libfs", "xcp"):
+                continue
+            e = expand.expanded(fx, g)
+            if e is g:
+                continue
+            for b in e.blocks[len(g.blocks):]:
+                t = b["term"]
+                if t["k"] == "call" and (t.get("fn") or {}).get("path") in fx.fns and fx.fns[t["fn"]["path"]].is_closure:
+                    out.add(t["fn"]["path"])
+        _memo[k] = (fx, out)
+    return _memo[k][1]
 
 
 def _view(fx, f):
